@@ -376,7 +376,7 @@ func genParse(g *hx.Gen, r *hx.Rand) {
 	for kind == "rsa" && other.RSA == key.RSA {
 		other = wire.NewKey(kind, r.Bytes(2), "")
 	}
-	switch r.Intn(34) {
+	switch r.Intn(48) { // 34..47: the file stays valid
 	case 0:
 		class, outerTag = "outer-other-key", "mismatch"
 		f.outer = other.Blob(wire.BodyOpt{})
@@ -598,6 +598,9 @@ func genMarshal(g *hx.Gen, r *hx.Rand, kg int) {
 		fields = fmt.Sprintf("kind=ecdsa bits=%s pt=%s d=%s", kind[5:], hx.Hex(key.PointBytes()), hx.Hex(wire.MpintBytes(key.EC.D)))
 	}
 	g.Stat("marshal." + kind)
+	if kg == 1 {
+		g.Stat("clause.marshal-accepted-by-ssh-keygen")
+	}
 	if pass != "" {
 		g.Stat("marshal.encrypted")
 	}
